@@ -15,7 +15,7 @@ from bctmc.runner import guarded
 from bctmc.tally import Tally
 
 PROPERTY = 'C15'
-RULE = ('every free tree on 8-9 nodes under the scan orders of bctmc/trees.py (3354 labelled trees, 0/1); the structured 7-10 node family of bctmc/named.py and all undirected graphs n<=6 x k=0..n; all digraphs n<=4 x k=0..2n-1 '
+RULE = ('every free tree on 8 nodes under the scan orders of bctmc/trees.py (951 labelled trees, 0/1); the structured 7-10 node family of bctmc/named.py and all undirected graphs n<=6 x k=0..n; all digraphs n<=4 x k=0..2n-1 '
         '(n<=3 and 4-node digraphs in quick); symmetric weights {1,2,3}, {0.5,1,1.5} and the non-dyadic {0.3,0.6} on 4 nodes x s on a 0.25 '
         'grid up to max strength+0.25; coreness on every graph; non-trivial = (graph,k) whose peeling needs >= 2 '
         'rounds (removing one node drags others below the bound)')
@@ -37,7 +37,7 @@ def plan(ctx):
         tot = ss.und_count(4, alpha)
         for (a, b) in ss.ranges(tot, 64):
             units.append(('wu', 4, alpha, a, b))
-    for tag in ('bintree_und', 'bin_und', 'bin_dir'):
+    for tag in ('bintree8_und', 'bin_und', 'bin_dir'):
         tot = len(named.family(tag))
         for (a, b) in ss.ranges(tot, 32):
             units.append(('named_' + tag, 0, (0, 1), a, b))
